@@ -623,7 +623,9 @@ class Helper:
         memo_only = bool(fn.decorator_list) and all(
             (lambda d: (d.func if isinstance(d, ast.Call) else d))(d_) is not None and
             ast.unparse(d_.func if isinstance(d_, ast.Call) else d_) in ("lru_cache", "functools.lru_cache", "cache", "functools.cache")
-            for d_ in fn.decorator_list) and not any(isinstance(n, (ast.Yield, ast.YieldFrom, ast.Global, ast.Nonlocal)) for n in _walk_fn(fn))
+            for d_ in fn.decorator_list) and not any(isinstance(n, (ast.Yield, ast.YieldFrom, ast.Global, ast.Nonlocal, ast.ClassDef)) for n in _walk_fn(fn)) \
+            and not any(isinstance(n, ast.Call) and (_callee(n) or "").split(".")[-1] in ("type", "make_dataclass", "dataclass", "tpm_dataclass", "new_class", "encrypted")
+                        for n in _walk_fn(fn))   # (a memoised *type factory* is memoised for the identity of its result: never inlined)
         self.simple = var_ok and not a.posonlyargs and kw_ok and (not fn.decorator_list or memo_only) and isinstance(fn, ast.FunctionDef)
         self.params = [x.arg for x in a.args] + [x.arg for x in a.kwonlyargs]
         self.defaults = {}
